@@ -47,6 +47,7 @@ type Stats struct {
 	SolverErrors                                         []string
 	Steps                                                int64
 	DomainDecisions, DomainRechecks, DomainDisagreements int
+	Restarts                                             int
 }
 
 // RunJobs explores all jobs on n workers.
@@ -111,6 +112,7 @@ func RunJobs(p *Program, jobs []*Job, n int, backend string, wantFixtures bool, 
 			stats.Sat += w.Solver.NSat
 			stats.Unsat += w.Solver.NUnsat
 			stats.Unknown += w.Solver.NUnknown
+			stats.Restarts += w.Solver.Restarts
 			stats.SolverTime += w.Solver.Time
 			stats.SolverErrors = append(stats.SolverErrors, w.Solver.Errors...)
 			stats.Steps += w.Steps
